@@ -73,6 +73,10 @@ func genLayoutTree(c *core.Ctx, cfgIdx int) layoutCase {
 			}
 			stmts = append(stmts, model.Text{S: " junk between "})
 		}
+		// the order of @use and the inserts in the page does not matter
+		if r.Intn(4) == 0 && len(stmts) > 4 {
+			stmts = append(append(append([]model.Stmt{stmts[0]}, stmts[3:]...), stmts[1]), stmts[2])
+		}
 		t.files[name] = stmts
 		lc.pages = append(lc.pages, name)
 	}
@@ -137,7 +141,7 @@ func init() {
 					lc := genLayoutTree(c, i)
 					r := c.Rng
 					page := lc.pages[r.Intn(len(lc.pages))]
-					fault := i % 6
+					fault := i % 8
 					stmts := append([]model.Stmt{}, lc.tree.files[page]...)
 					switch fault {
 					case 0: // one undefined insert
@@ -162,6 +166,14 @@ func init() {
 					case 4: // the layout uses a layout
 						lc.tree.files["layouts/outer"] = []model.Stmt{model.Text{S: "outer<"}, model.Reserve{Name: "o"}, model.Text{S: ">"}}
 						lc.tree.files[lc.layout] = append([]model.Stmt{model.Use{Name: "~outer"}}, lc.tree.files[lc.layout]...)
+					case 6: // a layout without reserves that uses a layout
+						lc.tree.files["layouts/outer"] = []model.Stmt{model.Text{S: "outer<"}, model.Reserve{Name: "o"}, model.Text{S: ">"}}
+						lc.tree.files[lc.layout] = []model.Stmt{model.Use{Name: "~outer"}, model.Text{S: "bare layout"}}
+						stmts = []model.Stmt{model.Use{Name: lc.layout}, model.Text{S: "page text"}}
+					case 7: // the same, the layout's @use sits in a branch that is not taken
+						lc.tree.files["layouts/outer"] = []model.Stmt{model.Text{S: "outer<"}, model.Reserve{Name: "o"}, model.Text{S: ">"}}
+						lc.tree.files[lc.layout] = []model.Stmt{model.If{Conds: []model.Expr{model.Lit{V: model.Bool(false)}}, Bodies: [][]model.Stmt{{model.Use{Name: "~outer"}}}}, model.Text{S: "bare layout"}}
+						stmts = []model.Stmt{model.Use{Name: lc.layout}, model.Text{S: "page text"}}
 					case 5: // an undefined insert into a layout that has no reserve at all
 						lc.tree.files[lc.layout] = []model.Stmt{model.Text{S: "bare layout"}}
 						stmts = []model.Stmt{model.Use{Name: lc.layout}, model.Insert{Name: "r0", E: model.Lit{V: model.Int(1)}}}
@@ -185,7 +197,7 @@ func init() {
 						return
 					}
 					if got.Err == nil {
-						names := []string{"an undefined insert", "several undefined inserts", "a duplicate insert", "a missing layout", "a layout that uses a layout", "an insert into a layout without reserves"}
+						names := []string{"an undefined insert", "several undefined inserts", "a duplicate insert", "a missing layout", "a layout that uses a layout", "an insert into a layout without reserves", "a reserve-less layout that uses a layout", "a reserve-less layout whose @use sits in an untaken branch"}
 						c.Violation(fmt.Sprintf("fault-accepted:%d", fault), fmt.Sprintf("%s was neither reported at load nor at render; page rendered %q", names[fault], clipS(got.Out, 200)), map[string]any{"files": describeFiles(files), "page": page})
 						return
 					}
